@@ -33,16 +33,29 @@ Inductive iop : Type :=
 | IDS (fo : N) (c : list N)
 | IRD (plan : list bool) (r : list (N * N * N * Z * string)) (c : list N)
 | IXD (c : list N)
+| IRW (fa fb : option Z) (plan : list bool) (r : option (list (N * N * N * Z * string))) (c : list N)
+      (* the stage driver with the datetime window (streamed files: linear search); r = None: it panicked *)
 | IPANIC (o : cop).
 
-(* block size, streamed container (gz / bz2 / lz4) or plain file, the bytes, the oracle table, the operations *)
-Definition ccase : Type := (N * bool * string * list (string * Z) * list iop)%type.
+(* block size, container (0 plain file, 1 gz / bz2 / lz4, 2 xz, 3 tar member), the bytes, the oracle table, the
+   operations *)
+Definition ccase : Type := (N * N * string * list (string * Z) * list iop)%type.
+
+(* the BlockReader right after BlockReader::new *)
+Definition open_kind (k bs filesz : N) : bstate :=
+  match k with
+  | 0 => b_init false
+  | 1 => b_open KSeq bs filesz
+  | 2 => b_open KXz bs filesz
+  | _ => b_open KTar bs filesz
+  end.
 
 Definition iop_cop (o : iop) : cop :=
   match o with
   | IL fo _ _ => OL fo | ILB fo _ _ _ => OLB fo | ILE on _ => OLE on
   | IS fo _ _ => OS fo | ISB fo _ _ _ => OSB fo | ISE on _ => OSE on
   | IDD bo _ => ODD bo | IDS fo _ => ODS fo | IRD plan _ _ => ORD plan | IXD _ => OXD
+  | IRW _ _ plan _ _ => ORD plan          (* not used: step_iop runs c_stream_win *)
   | IPANIC o => o
   end.
 
@@ -152,8 +165,22 @@ Definition cmp_step (bs : N) (f : file) (st : cstate) (o : iop) (x : cres) : N :
            | Found sls => if stream_agrees bs f (map ss_sysline sls) r then 0 else 1
            | Done => 1 | OutOfFuel => 2 | Panic => 4
            end) (eqlist (sc_list s) c)
+  | IRW _ _ _ (Some r) c, RR m =>
+      cnt (match m with
+           | Found sls => if stream_agrees bs f (map ss_sysline sls) r then 0 else 1
+           | Done => 1 | OutOfFuel => 2 | Panic => 4
+           end) (eqlist (sc_list s) c)
+  | IRW _ _ _ None _, _ => if cres_panicked x then 0 else 4
   | IPANIC _, _ => if cres_panicked x then 0 else 4
   | _, _ => 2
+  end.
+
+(* one operation on the model: c_step, or the window driver on the SyslineReader *)
+Definition step_iop (dated : list N -> option Z) (bs : N) (f : file) (st : cstate) (o : iop) : cstate * cres :=
+  match o with
+  | IRW fa fb plan _ _ =>
+      let '(s, r) := c_stream_win dated bs f fa fb plan (snd st) in ((fst st, s), RR r)
+  | _ => c_step dated bs f st (iop_cop o)
   end.
 
 Fixpoint replay (dated : list N -> option Z) (bs : N) (f : file) (st : cstate) (j : N) (ops : list iop)
@@ -161,7 +188,7 @@ Fixpoint replay (dated : list N -> option Z) (bs : N) (f : file) (st : cstate) (
   match ops with
   | [] => []
   | o :: r =>
-      let '(st', x) := c_step dated bs f st (iop_cop o) in
+      let '(st', x) := step_iop dated bs f st o in
       let code := cmp_step bs f st' o x in
       (if code =? 0 then [] else [(j, code)]) ++ [(1000000000 + cres_path x, 1)] ++
       (if cres_panicked x then [] else replay dated bs f st' (j + 1) r)
@@ -171,5 +198,5 @@ Definition cache_bad (cs : list ccase) : list (N * N) :=
   flat_map (fun ic =>
     let '(i, (bs, stream, fh, tab, ops)) := ic in
     map (fun jc => if fst jc <? 1000000000 then (1000 * i + fst jc, snd jc) else jc)
-        (replay (dated_tab tab) bs (unhex fh) (cinit_k stream) 0 ops))
+        (replay (dated_tab tab) bs (unhex fh) (cinit_b (open_kind stream bs (lenN (unhex fh)))) 0 ops))
     (index_from 0 cs).
